@@ -49,7 +49,7 @@ type RRelay struct {
 	Fee       int // address pool index
 	Gas       uint64
 	Grace     time.Duration
-	GraceSpec bool // some level specified the grace
+	GraceSpec bool            // some level specified the grace
 	MinV      decimal.Decimal // Wei
 	Pub       *int
 }
@@ -62,6 +62,9 @@ type Resolved struct {
 	Unspec bool
 	// Matched proposer entry (-1 none), for probes.
 	Entry int
+	// Relays the matched entry marks disabled: inherited from the defaults
+	// (and removed), or not inherited (nothing to remove).
+	DisabledInherited, DisabledOther map[int]bool
 }
 
 func (r *Resolved) RelayList() []int {
@@ -157,8 +160,14 @@ func Resolve(w *World, d *Doc, val *Val) *Resolved {
 		for _, r := range res.Relays {
 			applyVals(r, p.Vals, false)
 		}
+		res.DisabledInherited, res.DisabledOther = map[int]bool{}, map[int]bool{}
 		for _, re := range p.Relays {
 			if re.Disabled {
+				if res.Relays[re.Addr] != nil {
+					res.DisabledInherited[re.Addr] = true
+				} else {
+					res.DisabledOther[re.Addr] = true
+				}
 				delete(res.Relays, re.Addr)
 				continue
 			}
@@ -247,11 +256,18 @@ func Diff(ref *Resolved, got *beaconblockproposer.ProposerConfig) []Difference {
 		n := relayNumber(rc.Address)
 		rr := ref.Relays[n]
 		if rr == nil {
-			add("relay-set", "vouch uses relay %s which the documentation excludes (reference relays %v)", rc.Address, ref.RelayList())
+			class := "relay-extra"
+			switch {
+			case ref.DisabledInherited[n]:
+				class = "disabled-relay-kept"
+			case ref.DisabledOther[n]:
+				class = "disabled-relay-added"
+			}
+			add(class, "vouch uses relay %s which the documentation excludes (reference relays %v)", rc.Address, ref.RelayList())
 			continue
 		}
 		if seen[n] {
-			add("relay-set", "relay %s twice", rc.Address)
+			add("relay-twice", "relay %s twice", rc.Address)
 			continue
 		}
 		seen[n] = true
